@@ -304,7 +304,7 @@ static void on_control(cult *me)
                 /* only this stream serves the pool, and it is busy running me */
                 SIM_CHECK(st == ABT_THREAD_STATE_READY, "switch:caller-state", "caller ULT %d should be READY in its pool after yielding to ULT %d, state %d", f->id, me->id,
                           (int)st);
-                int in = wb_thread_is_in_pool(f->th);
+                int in = wl_thread_is_in_pool(f->th);
                 SIM_CHECK(in, "switch:caller-state", "caller ULT %d is not in its pool after yielding to ULT %d", f->id, me->id);
             }
         }
@@ -351,7 +351,7 @@ static int pick_target(int want_state, int me)
     else if (want_state == H_REVIVABLE)
         ok = really_in_state(&B.C[t], ABT_THREAD_STATE_TERMINATED);
     else if (want_state == H_INPOOL)
-        ok = wb_thread_is_in_pool(B.C[t].th); /* a unit migrating back may not have been pushed yet */
+        ok = wl_thread_is_in_pool(B.C[t].th); /* a unit migrating back may not have been pushed yet */
     if (!ok) {
         B.C[t].claimed_by = -1;
         return -1;
@@ -383,7 +383,9 @@ static void chain_body(void *arg)
                  * one stream that serves the chain pool */
                 int rk = -1;
                 ABT_OK(ABT_self_get_xstream_rank(&rk));
-                t = (B.priv && rk == B.home_rank) ? pick_target(H_INPOOL, me->id) : -1;
+                /* (ABT_thread_yield_to needs the deprecated remove operation, which a pool made with
+                 * ABT_pool_user_def does not have) */
+                t = (B.priv && rk == B.home_rank && !wl_pool_is_user(B.P)) ? pick_target(H_INPOOL, me->id) : -1;
                 break;
             }
             case P_RESUME_YIELD_TO:
